@@ -839,6 +839,12 @@ func siPermutations(n int) [][]int {
 	return res
 }
 
+type ZHid struct {
+	A      int32
+	hidden int32
+	B      string
+}
+
 func siC05(r *siReport) {
 	tm := map[string]reflect.Type{"ZF": reflect.TypeOf(ZF{}), "ZInner": reflect.TypeOf(ZInner{})}
 	names := []string{"a", "b", "c", "d", "e"}
@@ -950,6 +956,22 @@ func siC05(r *siReport) {
 				}
 				r.ok(cn)
 			}
+		}
+	}
+	// a wire field named like an unexported Go field is an unknown field
+	{
+		w := &siW{}
+		w.WriteByte('C')
+		w.str("ZHid").i(3).str("a").str("hidden").str("b")
+		w.WriteByte(0x60)
+		w.i(5).i(7).str("bee")
+		out, err := ToObject(w.Bytes(), map[string]reflect.Type{"ZHid": reflect.TypeOf(ZHid{})})
+		if err != nil {
+			r.fail("unexported-go-field", err.Error())
+		} else if g, ok := out.(*ZHid); !ok || g.A != 5 || g.B != "bee" {
+			r.fail("unexported-go-field", fmt.Sprintf("got %+v", out))
+		} else {
+			r.ok("unexported-go-field")
 		}
 	}
 	// an unknown field whose value belongs to a class (or list/map type) the type map does not know: a newer peer's extra field
@@ -1555,6 +1577,29 @@ type ZMutB struct {
 	L [][]ZInner
 }
 
+// Location: a message type that shares its bare name with a type inside time.Time
+type Location struct{ Lat, Lon float64 }
+type ZWhen struct {
+	When  time.Time
+	Where *Location
+}
+
+// ZPtrNamed declares its custom name on the pointer type
+type ZPtrNamed struct{ A int32 }
+
+func (*ZPtrNamed) HessianCodecName() string { return "com.zoo.PtrNamed" }
+
+type ZPtrNamedHolder struct {
+	P *ZPtrNamed
+	V ZPtrNamed
+}
+
+// ZEmbNamed embeds a custom-named struct: the promoted method is not its own name
+type ZEmbNamed struct {
+	ZNamed
+	X int32
+}
+
 type ZNestList []ZNestList
 type ZNestMap map[string]ZNestMap
 type ZSelfPtr *ZSelfPtr
@@ -1562,11 +1607,14 @@ type ZSelfPtrHolder struct{ F ZSelfPtr }
 
 func siC16(r *siReport) {
 	witnesses := map[string][]interface{}{
-		"ZRec":       {&ZRec{}, &ZRec{V: 1, Next: &ZRec{V: 2}, Kids: []*ZRec{{V: 3}}, M: map[string]*ZRec{"k": {V: 4}}}},
-		"ZMutA":      {&ZMutA{}, &ZMutA{B: &ZMutB{A: &ZMutA{}, L: [][]ZInner{{{1, "a"}}}}}, &ZMutA{B: &ZMutB{L: [][]ZInner{{{1, "a"}}, {}, {{2, "b"}}}}}},
-		"ZLists":     {&ZLists{}, siZoo(rand.New(rand.NewSource(1)), 3)["lists"]},
-		"ZMaps":      {&ZMaps{}, siZoo(rand.New(rand.NewSource(1)), 3)["maps"]},
-		"ZWithNamed": {&ZWithNamed{}, &ZWithNamed{A: ZNamed{"a"}, L: []ZNamed{{"b"}}}},
+		"ZRec":            {&ZRec{}, &ZRec{V: 1, Next: &ZRec{V: 2}, Kids: []*ZRec{{V: 3}}, M: map[string]*ZRec{"k": {V: 4}}}},
+		"ZMutA":           {&ZMutA{}, &ZMutA{B: &ZMutB{A: &ZMutA{}, L: [][]ZInner{{{1, "a"}}}}}, &ZMutA{B: &ZMutB{L: [][]ZInner{{{1, "a"}}, {}, {{2, "b"}}}}}},
+		"ZLists":          {&ZLists{}, siZoo(rand.New(rand.NewSource(1)), 3)["lists"]},
+		"ZMaps":           {&ZMaps{}, siZoo(rand.New(rand.NewSource(1)), 3)["maps"]},
+		"ZWithNamed":      {&ZWithNamed{}, &ZWithNamed{A: ZNamed{"a"}, L: []ZNamed{{"b"}}}},
+		"ZWhen":           {&ZWhen{}, &ZWhen{When: time.Unix(100, 0).UTC(), Where: &Location{1.5, 2.5}}},
+		"ZPtrNamedHolder": {&ZPtrNamedHolder{}, &ZPtrNamedHolder{P: &ZPtrNamed{7}, V: ZPtrNamed{8}}},
+		"ZEmbNamed":       {&ZEmbNamed{}, &ZEmbNamed{ZNamed{"leaf"}, 5}},
 	}
 	var names []string
 	for k := range witnesses {
@@ -1639,7 +1687,7 @@ func siC16(r *siReport) {
 			r.fail("selfref/"+name, "did not terminate")
 		}
 	}
-	r.done("3 named list/map/pointer types that contain themselves; 5 zoo types (recursive, mutually recursive, slices of slices, maps of pointers, custom-named) x witnesses {zero value, populated} x every other witness round-tripped with the extracted maps")
+	r.done("3 named list/map/pointer types that contain themselves; 8 zoo types (recursive, mutually recursive, slices of slices, maps of pointers, custom-named with value and pointer receiver, embedding a custom-named struct, a type named like one inside time.Time) x witnesses {zero value, populated} x every other witness round-tripped with the extracted maps")
 }
 
 func TestGovcStandin(t *testing.T) {
